@@ -156,7 +156,10 @@ def _no_swallowing(col, rule="C18.R1"):
                         inside = {id(n) for st_ in t.body for n in A.walk(st_)}
                         after = [r for r in after if id(r) not in inside]
                         body_ok = bool(after) and all(r.value is not None and A.src(r.value) in NAN for r in after)
-                    narrow = all(isinstance(s, (ast.Return, ast.Assign, ast.Expr)) for s in t.body) and len(t.body) == 1
+                    # ... and the operands are evaluated before the try: a ZeroDivisionError raised *inside an operand* is a failure of
+                    # the task like any other, not this division's
+                    narrow = all(isinstance(s, (ast.Return, ast.Assign, ast.Expr)) for s in t.body) and len(t.body) == 1 \
+                        and not any(isinstance(c, (ast.Call, ast.Attribute, ast.Subscript)) for s in t.body for c in A.walk(s))
                     col.add(rule, f"{cx.qual}#documented-zero-division-guard", body_ok and narrow, cx.module.loc(h),
                             "the documented division-by-zero deviation: exactly ZeroDivisionError of the single division statement -> NaN",
                             f"try body: {A.src(t.body)[:60]}; handler: {A.src(h.body)[:40]}")
@@ -194,6 +197,17 @@ def _no_swallowing(col, rule="C18.R1"):
                     nm = A.call_name(it.context_expr) if isinstance(it.context_expr, ast.Call) else None
                     if nm and nm.split(".")[-1] == "suppress":
                         col.fail(rule, f"{cx.qual}#suppress", cx.module.loc(n), "no exception is suppressed on the update path", A.src(it.context_expr))
+                    # a context manager of the package: __exit__ returning something truthy swallows the exception leaving the block
+                    cn = nm.split(".")[-1] if nm else None
+                    if cn in col.repo.classes:
+                        ex = col.repo.lookup(col.repo.classes[cn], "__exit__")
+                        if ex is None:
+                            continue
+                        rets = [r for r in A.walk(ex[1]) if isinstance(r, ast.Return) and r.value is not None
+                                and not (isinstance(r.value, ast.Constant) and r.value.value in (None, False))]
+                        col.add(rule, f"{cx.qual}#with:{cn}.__exit__-lets-exceptions-through", not rets, ex[0].module.loc(rets[0]) if rets else cx.module.loc(n),
+                                "a context manager entered on the update path returns None/False from __exit__ (a truthy result suppresses the "
+                                "exception of a failing task)", f"returns {A.src(rets[0].value)[:60]}" if rets else "")
 
 
 def _no_state_change_while_running(col, rule="C18.R2"):
@@ -259,10 +273,15 @@ def _retry_idempotence(col, rule="C18.R4"):
 
 
 def check(col: Collector):
-    _no_swallowing(col)
-    _no_state_change_while_running(col)
-    _no_early_exit(col)
-    _retry_idempotence(col)
+    with col.rule():
+        _no_swallowing(col)
+    with col.rule():
+        _no_state_change_while_running(col)
+    with col.rule():
+        _no_early_exit(col)
+    with col.rule():
+        _retry_idempotence(col)
     # "none scheduled after it has run": the schedule lists every task once, after its producers
     from .toposort_rules import check_toposort
-    check_toposort(col, "C18.R5")
+    with col.rule():
+        check_toposort(col, "C18.R5")
